@@ -422,6 +422,8 @@ UNITS += [
         // SAFETY: a pack is counted as unused only if every needed blob in it still has a copy outstanding in a pack seen later
         /*@unused_pack_holds_no_last_copy*/ pi_r.used_blobs == 0 ==> forall|i: int| 0 <= i < pack.blobs@.len() && outstanding(old(used_ids)@, bkey(#[trigger] pack.blobs@[i])) >= 1
             ==> outstanding(final(used_ids)@, bkey(pack.blobs@[i])) >= 1,
+        // the whole effect on the counts as ONE relation: the keeper theorem (theorem_every_needed_blob_has_a_keeper) is stated over it
+        /*@effect_on_counts_is_fp_post*/ fp_post(old(used_ids)@, pack.blobs@, final(used_ids)@, pi_r.used_blobs >= 1),
         // a used pack settles every needed blob it holds: no later pack is made the keeper of the same blob
         /*@used_pack_settles_its_blobs*/ pi_r.used_blobs >= 1 ==> forall|i: int| 0 <= i < pack.blobs@.len() ==> outstanding(final(used_ids)@, bkey(#[trigger] pack.blobs@[i])) == 0,
 """,
@@ -430,12 +432,16 @@ UNITS += [
                 first_needed is None,
                 pi.used_blobs == 0, pi.used_size == 0, pi.unused_blobs == vi, pi.unused_size == lens(pack.blobs@, 0, vi as int),
                 forall|k: (BlobType, u64)| outstanding(old(used_ids)@, k) >= 1 ==> outstanding(used_ids@, k) >= 1,
+                forall|k: (BlobType, u64)| #![trigger outstanding(used_ids@, k)] outstanding(old(used_ids)@, k) >= 1 ==> outstanding(used_ids@, k) == outstanding(old(used_ids)@, k) - occ(pack.blobs@, k, vi as int),
             invariant
+                forall|k: (BlobType, u64)| #![trigger old(used_ids)@.dom().contains(k)] old(used_ids)@.dom().contains(k) ==> used_ids@[k] <= old(used_ids)@[k],
                 vi <= pack.blobs@.len(), pack.blobs@.len() < u16::MAX, lens(pack.blobs@, 0, pack.blobs@.len() as int) <= u32::MAX,
                 used_ids@.dom() == old(used_ids)@.dom(),
                 forall|k: (BlobType, u64)| old(used_ids)@.dom().contains(k) && !(exists|i: int| 0 <= i < pack.blobs@.len() && bkey(#[trigger] pack.blobs@[i]) == k) ==> used_ids@[k] == old(used_ids)@[k],
                 forall|k: (BlobType, u64)| outstanding(old(used_ids)@, k) == 0 ==> outstanding(used_ids@, k) == 0,
             ensures
+                forall|k: (BlobType, u64)| #![trigger old(used_ids)@.dom().contains(k)] old(used_ids)@.dom().contains(k) ==> used_ids@[k] <= old(used_ids)@[k],
+                first_needed is None ==> forall|k: (BlobType, u64)| #![trigger outstanding(used_ids@, k)] outstanding(old(used_ids)@, k) >= 1 ==> outstanding(used_ids@, k) == outstanding(old(used_ids)@, k) - occ(pack.blobs@, k, pack.blobs@.len() as int),
                 pack.blobs@.len() < u16::MAX, lens(pack.blobs@, 0, pack.blobs@.len() as int) <= u32::MAX,
                 used_ids@.dom() == old(used_ids)@.dom(),
                 forall|k: (BlobType, u64)| old(used_ids)@.dom().contains(k) && !(exists|i: int| 0 <= i < pack.blobs@.len() && bkey(#[trigger] pack.blobs@[i]) == k) ==> used_ids@[k] == old(used_ids)@[k],
@@ -446,6 +452,7 @@ UNITS += [
             decreases pack.blobs@.len() - vi,
 """, 2: """
                 invariant
+                    forall|k: (BlobType, u64)| #![trigger old(used_ids)@.dom().contains(k)] old(used_ids)@.dom().contains(k) ==> used_ids@[k] <= old(used_ids)@[k],
                     first_needed < pack.blobs@.len() < u16::MAX, lens(pack.blobs@, 0, pack.blobs@.len() as int) <= u32::MAX,
                     used_ids@.dom() == old(used_ids)@.dom(),
                     forall|k: (BlobType, u64)| old(used_ids)@.dom().contains(k) && !(exists|i: int| 0 <= i < pack.blobs@.len() && bkey(#[trigger] pack.blobs@[i]) == k) ==> used_ids@[k] == old(used_ids)@[k],
@@ -455,6 +462,7 @@ UNITS += [
                     forall|i: int| 0 <= i < vj ==> outstanding(used_ids@, bkey(#[trigger] pack.blobs@[i])) == 0,
 """, 3: """
                 invariant
+                    forall|k: (BlobType, u64)| #![trigger old(used_ids)@.dom().contains(k)] old(used_ids)@.dom().contains(k) ==> used_ids@[k] <= old(used_ids)@[k],
                     first_needed < pack.blobs@.len() < u16::MAX, lens(pack.blobs@, 0, pack.blobs@.len() as int) <= u32::MAX,
                     used_ids@.dom() == old(used_ids)@.dom(),
                     forall|k: (BlobType, u64)| old(used_ids)@.dom().contains(k) && !(exists|i: int| 0 <= i < pack.blobs@.len() && bkey(#[trigger] pack.blobs@[i]) == k) ==> used_ids@[k] == old(used_ids)@[k],
